@@ -5,7 +5,7 @@ Goldilocks prime (POLY domain) which degrade to (variable set, degree bound) pai
 polynomial grows past a size limit. Branching on a non-constant value is not supported (UNANALYSABLE): the
 analysed code (AIR constraint evaluation, opcode tables, small integer helpers) is branch-free in the data.
 This is constant propagation plus expression reconstruction; no solver, no path conditions."""
-import copy
+import copy, re
 
 P = 2**64 - 2**32 + 1
 R_INV = pow(2**64, -1, P)
@@ -233,6 +233,34 @@ class Sup:
 
 def is_field(x):
     return isinstance(x, (Poly, Sup))
+
+
+INV_REG = {}
+
+
+def inv_var(x):
+    """symbolic multiplicative inverse of a polynomial value (x != 0 on the path)"""
+    cv = x.const_value() if isinstance(x, Poly) else None
+    if cv is not None:
+        return Poly.const(pow(cv, -1, P)) if cv else Poly.const(0)
+    name = "inv[%r]" % (x,)
+    INV_REG[name] = x
+    return Poly.var(name)
+
+
+def simplify_inv(p, env):
+    """after substituting env, replace inv[x] variables whose argument became constant"""
+    if not isinstance(p, Poly):
+        return p
+    rep = {}
+    for v in p.vars():
+        if v.startswith("inv[") and v in INV_REG:
+            inner = INV_REG[v].subst(env)
+            if inner.const_value() not in (None, 0):
+                rep[v] = Poly.const(pow(inner.const_value(), -1, P))
+            elif inner != INV_REG[v]:
+                rep[v] = inv_var(inner)
+    return p.subst(rep) if rep else p
 
 
 class Term:
@@ -570,6 +598,7 @@ class Interp:
         self.models = {}
         self.trace_unknown = []
         self.field_hook = field_hook
+        self.ga_stack = []
         self.fork = None
         self.path = []          # guards taken: (condition term, value | ("not", values), location)
         self.effects = []       # recorded effects of modelled calls
@@ -588,6 +617,11 @@ class Interp:
         if named and (named.endswith("FieldElement::ZERO")):
             return Poly.const(0)
         c = o.get("c")
+        if c is None and not named and re.match(r"^[A-Z][A-Z0-9_]*$", o.get("dbg", "")):
+            # const generic parameter: take the (single) integer generic argument of the current instance
+            ints = [g for g in (self.ga_stack[-1] if self.ga_stack else []) if re.match(r"^\d+$", str(g).split("_")[0])]
+            if len(ints) == 1:
+                return int(str(ints[0]).split("_")[0])
         return self.conv_const(c, ty, named)
 
     def conv_const(self, c, ty, named=None):
@@ -760,11 +794,18 @@ class Interp:
                     arms = t["arms"]
                     c = self.fork.choose((fn.id, bi), len(arms) + 1, v)
                     if c < len(arms):
-                        self.path.append((v, int(arms[c][0]), fn.loc(t["ln"])))
+                        entry = (v, int(arms[c][0]), fn.loc(t["ln"]))
                         nxt = arms[c][1]
                     else:
-                        self.path.append((v, ("not", [int(a[0]) for a in arms]), fn.loc(t["ln"])))
+                        entry = (v, ("not", [int(a[0]) for a in arms]), fn.loc(t["ln"]))
                         nxt = t["else"]
+                    # normalise X == c / X != c on an integer term to a guard on X itself
+                    if isinstance(v, Term) and v.op in ("==", "!=") and len(v.args) == 2 and isinstance(v.args[1], int) \
+                            and not isinstance(v.args[1], bool) and [int(a[0]) for a in arms] == [0]:
+                        truth = entry[1] != 0
+                        is_eq = (v.op == "==") == truth
+                        entry = (v.args[0], v.args[1] if is_eq else ("not", [v.args[1]]), entry[2])
+                    self.path.append(entry)
                     bi = nxt
                     continue
                 nxt = t["else"]
@@ -970,7 +1011,11 @@ class Interp:
         if m is not None:
             return m(self, argv, f)
         if f.id in self.F.fns and f.res != "trait":
-            return self.call(f.id, argv)
+            self.ga_stack.append(f.ga)
+            try:
+                return self.call(f.id, argv)
+            finally:
+                self.ga_stack.pop()
         # an unresolved trait call with a closure / fn receiver
         if f.decl.endswith("FnMut::call_mut") or f.decl.endswith("FnOnce::call_once") or f.decl.endswith("Fn::call"):
             args = argv[1].items if isinstance(argv[1], Agg) else [argv[1]]
@@ -1333,9 +1378,30 @@ def install_models(I):
                 return Term("ne" if neg else "eq", x, y)
             if isinstance(x, (int, bool)) and isinstance(y, (int, bool)):
                 return (x != y) if neg else (x == y)
-            if isinstance(x, Agg) and isinstance(y, Agg) and not x.items and not y.items:
-                r = (x.adt, x.variant) == (y.adt, y.variant)
-                return (not r) if neg else r
+            if isinstance(x, Agg) and isinstance(y, Agg):
+                if (x.variant, len(x.items)) != (y.variant, len(y.items)):
+                    return neg
+                syms = []
+                for u, w in zip(x.items, y.items):
+                    u, w = deref(u), deref(w)
+                    if isinstance(u, (int, bool)) and isinstance(w, (int, bool)):
+                        if u != w:
+                            return neg
+                    elif isinstance(u, Poly) and isinstance(w, Poly) and (u - w).const_value() is not None:
+                        if (u - w).const_value() != 0:
+                            return neg
+                    else:
+                        syms.append((u, w))
+                if not syms:
+                    return not neg
+                if len(syms) == 1:
+                    u, w = syms[0]
+                    if isinstance(u, int):
+                        u, w = w, u
+                    if isinstance(u, Term) and isinstance(w, int):
+                        return Term("!=" if neg else "==", u, w)
+                    if isinstance(u, Poly) and isinstance(w, Poly):
+                        return Term("ne" if neg else "eq", u, w)
             return Term("ne" if neg else "eq", repr(x), repr(y))
         return m
     S.append(("@PartialEq::eq", peq(False)))
@@ -1352,3 +1418,56 @@ def install_models(I):
     M["core::fmt::Arguments::new"] = lambda I, a, f: Opaque("fmt")
     S.append(("fmt::Arguments::new_const", lambda I, a, f: Opaque("fmt")))
     S.append(("fmt::Arguments::new_v1", lambda I, a, f: Opaque("fmt")))
+
+
+def path_feasible(guards):
+    """constant-propagation feasibility of a syntactic path: the same condition term decided two ways, or
+    x == c1 and x == c2, is infeasible. No solver; anything not obviously contradictory is kept."""
+    eq = {}
+    ne = {}
+    for cond, val, loc in guards:
+        if isinstance(cond, Term) and cond.op in ("eq", "ne") and len(cond.args) == 2:
+            a, b = cond.args
+            truth = (val != 0) if not isinstance(val, tuple) else True
+            is_eq = (cond.op == "eq") == truth
+            if isinstance(a, Poly) and isinstance(b, Poly):
+                d = a - b
+                key = repr(d) if d.t and next(iter(sorted(d.t.items())))[1] <= P // 2 else repr(-d)
+                cv = None
+            else:
+                key = repr((a, b))
+            if is_eq:
+                if key in ne:
+                    return False
+                eq[key] = True
+            else:
+                if key in eq:
+                    return False
+                ne[key] = True
+            # x - c == 0 with two different c
+            if isinstance(a, Poly) and isinstance(b, Poly) and is_eq and b.const_value() is not None:
+                k2 = "val:" + repr(a)
+                if k2 in eq and eq[k2] != b.const_value():
+                    return False
+                eq[k2] = b.const_value()
+                if (k2, b.const_value()) in ne:
+                    return False
+            if isinstance(a, Poly) and isinstance(b, Poly) and not is_eq and b.const_value() is not None:
+                k2 = "val:" + repr(a)
+                if eq.get(k2) == b.const_value():
+                    return False
+                ne[(k2, b.const_value())] = True
+            continue
+        key = repr(cond)
+        if isinstance(val, tuple):
+            for c in val[1]:
+                if eq.get(key) == c:
+                    return False
+                ne[(key, c)] = True
+        else:
+            if key in eq and eq[key] != val:
+                return False
+            if (key, val) in ne:
+                return False
+            eq[key] = val
+    return True
